@@ -14,7 +14,7 @@ from kfv.terms import Poly
 NEEDS_TYPES = False
 TECHNIQUE = ('path-insensitive symbolic evaluation of the timing wrapper over all its branches (exactly-once call, '
              'exactly-one sample per path, sample = clock difference in term normal form), def-use agreement of '
-             'sum/len window in get_trace, table reset in clear_trace')
+             'sum/len window in get_trace, table reset in clear_trace; who-may-mutate rule on the sample table; no rebinding of query parameters inside the per-function loop')
 EXPLANATION = (
     'kfac/tracing.py is analysed structurally.  The wrapper returned by trace() is evaluated symbolically on every '
     'path (branches joined; logs that differ between paths are a violation): it must call the decorated function '
@@ -22,7 +22,7 @@ EXPLANATION = (
     'and record exactly one sample under func.__name__ whose value is clock_after - clock_before for one clock '
     'function, the first read before and the second after the call.  get_trace must sum and divide over the same '
     '(windowed) list, windowing by the last max_history entries; clear_trace must empty the table that the other '
-    'two use.  Wall-clock values themselves are not decided.')
+    'two use.  Wall-clock values themselves are not decided. Only the wrapper appends and only clear_trace removes samples (T7); get_trace never rebinds its parameters.')
 CLOCKS = {'time.time', 'time.perf_counter', 'time.monotonic', 'time.process_time', 'time.perf_counter_ns',
           'time.time_ns', 'time.monotonic_ns', 'timeit.default_timer'}
 
@@ -267,6 +267,86 @@ def run(ctx: Ctx) -> None:
     iter_tabs = {n.value.id for n in p.nodes(gt) if isinstance(n, ast.Attribute) and n.attr == 'items' and isinstance(n.value, ast.Name)}
     ctx.check(bool(iter_tabs & tables), 'T5', gt, f'get_trace reads table {sorted(iter_tabs & tables)}', 'table',
               f'get_trace does not iterate the trace table {sorted(tables)}', gt.node)
+
+    # the query parameters are per-call constants: rebinding one inside the per-function loop carries state from one
+    # traced function to the next
+    for n in p.nodes(gt):
+        if isinstance(n, (ast.Assign, ast.AugAssign, ast.AnnAssign, ast.For, ast.NamedExpr)):
+            tg = n.targets if isinstance(n, ast.Assign) else [n.target]
+            for t in tg:
+                for x in ast.walk(t):
+                    if isinstance(x, ast.Name) and x.id in gt.params:
+                        ctx.violate('T5', gt, norm(n)[:80] if not isinstance(n, ast.For) else f'for {norm(n.target)}',
+                                    f'get_trace rebinds its parameter {x.id} ({norm(n)[:70] if not isinstance(n, ast.For) else "loop target"}): the value computed for one traced function is used for the next', n)
+    ctx.ok('T5', gt, f'parameters {gt.params} are never rebound', gt.node)
+
+    # --- T7 the sample table is written only by the wrapper (append) and emptied only by clear_trace
+    ctx.rule('T7', 'recorded samples are only appended by the timing wrapper and only removed by clear_trace: no other function mutates the table or a sample list', floor=1)
+    MUT = {'append', 'extend', 'insert', 'pop', 'remove', 'clear', 'sort', 'reverse', 'popitem', 'update', 'setdefault', '__setitem__', '__delitem__'}
+    n_funcs = 0
+    for f in p.functions():
+        if f is w or f.short == 'tracing.clear_trace':
+            continue
+        # names that may denote the table or one of its sample lists
+        alias: set[str] = set()
+        uses_table = any(isinstance(n, ast.Name) and n.id in tables for n in p.nodes(f)) and f.module == gt.module
+        if not uses_table:
+            continue
+        n_funcs += 1
+        changed = True
+        while changed:
+            changed = False
+            for n in p.nodes(f):
+                src = tgt = None
+                if isinstance(n, ast.For):
+                    src, tgt = n.iter, n.target
+                elif isinstance(n, ast.Assign) and len(n.targets) == 1:
+                    src, tgt = n.value, n.targets[0]
+                elif isinstance(n, ast.comprehension):
+                    src, tgt = n.iter, n.target
+                if src is None:
+                    continue
+                # a slice / list() / sum() of a sample list is a copy, not an alias
+                root = src
+                while isinstance(root, (ast.Attribute, ast.Call, ast.Subscript)):
+                    if isinstance(root, ast.Subscript) and isinstance(root.slice, ast.Slice):
+                        root = None
+                        break
+                    if isinstance(root, ast.Call):
+                        if isinstance(root.func, ast.Attribute) and root.func.attr in ('values', 'items', 'get'):
+                            root = root.func.value
+                            continue
+                        root = None
+                        break
+                    root = root.value
+                if isinstance(root, ast.Name) and (root.id in tables or root.id in alias):
+                    for x in ast.walk(tgt):
+                        if isinstance(x, ast.Name) and x.id not in alias and x.id not in tables:
+                            alias.add(x.id)
+                            changed = True
+        names = alias | tables
+        for n in p.nodes(f):
+            bad = None
+            if isinstance(n, ast.Call) and isinstance(n.func, ast.Attribute) and n.func.attr in MUT:
+                r = n.func.value
+                while isinstance(r, (ast.Subscript, ast.Attribute)):
+                    r = r.value
+                if isinstance(r, ast.Name) and r.id in names:
+                    bad = f'{norm(n)[:70]}'
+            if isinstance(n, (ast.Delete, ast.Assign, ast.AugAssign)):
+                tg = n.targets if isinstance(n, (ast.Delete, ast.Assign)) else [n.target]
+                for t in tg:
+                    if isinstance(t, ast.Subscript):
+                        r = t.value
+                        while isinstance(r, (ast.Subscript, ast.Attribute)):
+                            r = r.value
+                        if isinstance(r, ast.Name) and r.id in names:
+                            bad = norm(n)[:70]
+                    if isinstance(t, ast.Name) and t.id in tables and any(isinstance(g_, ast.Global) and t.id in g_.names for g_ in p.nodes(f)):
+                        bad = norm(n)[:70]
+            if bad:
+                ctx.violate('T7', f, bad, f'{f.short}: {bad} changes the recorded samples outside the timing wrapper / clear_trace: later queries no longer cover every completed call', n)
+    ctx.ok('T7', 'kfac.tracing', f'{n_funcs} other function(s) use the sample table read-only', None)
 
     # --- T6 clear_trace
     ct = p.get_func('tracing.clear_trace')
